@@ -242,6 +242,80 @@ class Fixture:
         return case
 
 
+# ------------------------------------------------------------------ binding A: histories of the SigHashCache model
+# action alphabet = Next of specs/sighash/SigHashCache.tla (edits of the four field groups, queries of the three algorithms
+# under hash types that do / do not use each midstate); every sequence up to the depth bound is replayed on one real Tx.
+MODEL_ACTIONS = ["EditOutput", "EditSequence", "EditOutpoint", "EditSpent", "QueryLegacy", "Query143(ALL)", "Query143(ACP|SINGLE)",
+                 "Query143(NONE)", "Query341(DEFAULT)", "Query341(ACP|NONE)", "Query341(SINGLE)"]
+
+
+def model_histories(ctx, rng, depth):
+    import itertools
+    from buidl.tx import Tx, TxIn, TxOut
+    from buidl.script import Script
+    from buidl.timelock import Sequence
+    from buidl.witness import Witness
+
+    def fresh():
+        ins = []
+        for spk, wit in (([0, b"\x11" * 20], [b"\x30" * 71, b"\x02" * 33]), ([0x51, b"\x22" * 32], [b"\x33" * 64]), ([0x76, 0xA9, b"\x44" * 20, 0x88, 0xAC], [])):
+            t = TxIn(bytes([len(ins) + 1]) * 32, len(ins), sequence=0xFFFFFFFE)
+            t._value = 10000 * (len(ins) + 1)
+            t._script_pubkey = Script(list(spk))
+            t.witness = Witness(list(wit))
+            ins.append(t)
+        outs = [TxOut(5000, Script([0, b"\x55" * 20])), TxOut(7000, Script([0x51, b"\x66" * 32]))]
+        return Tx(2, ins, outs, 0, segwit=True)
+
+    class FX:
+        pass
+    results = {}       # (state, action) -> {digest: example history}
+    snaps = {}
+    nq = 0
+    for d in range(1, depth + 1):
+        for hist in itertools.product(range(len(MODEL_ACTIONS)), repeat=d):
+            if MODEL_ACTIONS[hist[-1]].startswith("Edit"):
+                continue               # a history that ends with an edit adds nothing beyond its prefix
+            tx = fresh()
+            st = [0, 0, 0, 0]          # outV, seqV, prevV, spentV (mod 3, as MaxV = 2 in the model)
+            for a in hist:
+                name = MODEL_ACTIONS[a]
+                if name == "EditOutput":
+                    st[0] = (st[0] + 1) % 3
+                    tx.tx_outs[0].amount = 5000 + st[0]
+                elif name == "EditSequence":
+                    st[1] = (st[1] + 1) % 3
+                    tx.tx_ins[0].sequence = Sequence(0xFFFFFFFE - st[1])
+                elif name == "EditOutpoint":
+                    st[2] = (st[2] + 1) % 3
+                    tx.tx_ins[1].prev_index = 1 + 10 * st[2]
+                elif name == "EditSpent":
+                    st[3] = (st[3] + 1) % 3
+                    tx.tx_ins[1]._value = 20000 + st[3]
+                else:
+                    if name == "QueryLegacy":
+                        alg, idx, ht, call = "legacy", 2, 1, (lambda: tx.sig_hash_legacy(2, None, 1))
+                    elif name.startswith("Query143"):
+                        ht = {"ALL": 1, "ACP|SINGLE": 0x83, "NONE": 2}[name[9:-1]]
+                        alg, idx, call = "bip143", 0, (lambda: tx.sig_hash_bip143(0, None, None, ht))
+                    else:
+                        ht = {"DEFAULT": 0, "ACP|NONE": 0x82, "SINGLE": 3}[name[9:-1]]
+                        alg, idx, call = "bip341", 1, (lambda: tx.sig_hash_bip341(1, 0, ht))
+                    res = outcome(call)
+                    nq += 1
+                    dig = (res[1].to_bytes(32, "big") if isinstance(res[1], int) else bytes(res[1])) if res[0] == "ok" else b"raise:" + str(res[1]).encode()
+                    key = (tuple(st), name)
+                    if key not in snaps:
+                        fx = FX()
+                        fx.tx = tx
+                        j, spent = Fixture.snapshot(fx)
+                        snaps[key] = {"id": "mh%d" % len(snaps), "alg": alg, "idx": idx, "ht": ht, "kind": "p2wpkh", "redeem": [], "wscript": [],
+                                      "sc": jscript(tx.tx_ins[2]._script_pubkey.commands), "ext": 0, "leafver": 0, "leafscript": [], "tx": j, "spent": spent}
+                    results.setdefault(key, {}).setdefault(dig, [MODEL_ACTIONS[x] for x in hist])
+    ctx.evaluations += nq
+    return snaps, results, nq
+
+
 def run(ctx):
     rng = random.Random(ctx.seed)
     q = ctx.quick
@@ -258,6 +332,25 @@ def run(ctx):
         r = ctx.mc_expect_ok("sighash/SigHashCache.tla", "MC_Recompute.cfg", what="digest freshness under edits")
         ctx.exhaustive.append("SigHashCache: all interleavings of 4 edit kinds and 13 query kinds up to depth 7 (%d states); "
                               "memo policy refuted, recompute policy satisfies Fresh" % r.distinct)
+    if ctx.want("histories"):
+        depth = 4 if q else 5
+        snaps, results, nq = model_histories(ctx, rng, depth)
+        got = ctx.validate("sighash/C05Cases.tla", list(snaps.values()), "C05Cases.cfg", timeout=3000, per_shard_min=10)
+        byid = {v["id"]: k for k, v in snaps.items()}
+        for cid, e in got.items():
+            key = byid[cid]
+            want = eval_term(e["term"]) if e["ok"] else None
+            for dig, hist in results[key].items():
+                ctx.nontriv(("model-history", key[1], key[0]))
+                if want is None or dig != want:
+                    ctx.violation("history:%s:after-%s" % (key[1], "+".join(sorted({h for h in hist[:-1] if h.startswith("Edit")})) or "queries-only"),
+                                  "after the history %s the library returned %s for %s; the digest of the current transaction is %s"
+                                  % (hist, dig.hex() if not dig.startswith(b"raise") else dig, key[1], want.hex() if want else None),
+                                  {"kind": "history", "history": hist, "state": list(key[0])})
+        ctx.traces += nq
+        ctx.exhaustive.append("every sequence of <= %d actions of SigHashCache.Next (4 edits, 7 queries) replayed on one real Tx: %d queries, %d distinct (state, query) pairs decided by TLC"
+                              % (depth, nq, len(snaps)))
+        ctx.sample({"model_history": results[next(iter(results))][next(iter(results[next(iter(results))]))]})
     if ctx.want("cases"):
         nh = 120 if q else 2500
         cases = []
